@@ -38,7 +38,10 @@ func c04Gen(r *rand.Rand, tier string) []spec.Case {
 						continue // 30+10 s yamux keep-alive: thorough tier only
 					}
 					for _, pa := range patterns {
-						if tier != "thorough" && r.Intn(3) != 0 && !(pa == "single" && la == "cmd") {
+						always := (pa == "single" && la == "cmd") ||
+							// reattached clients have no process handle to wait on: the force-kill path always present
+							(la == "reattach" && pa == "single" && (b == "never" || b == "frozen" || b == "busy"))
+						if tier != "thorough" && r.Intn(3) != 0 && !always {
 							continue // quick: every (behaviour, proto) single/cmd cell + a third of the rest
 						}
 						if rep > 0 && b == "frozen" && pr != "grpc" {
